@@ -4,6 +4,7 @@ usage: python -u -m vt.worker PROP HARNESS_NAME OUT.json TIER
 """
 import importlib
 import json
+import os
 import sys
 import time
 import traceback
@@ -28,7 +29,8 @@ def main():
             res = H.explore(
                 h,
                 max_paths=o.get("max_paths_thorough", o.get("max_paths", 3000)) if deep else o.get("max_paths", 3000),
-                time_budget=o.get("time_budget_thorough", o.get("time_budget", 900)) if deep else o.get("time_budget", 420),
+                # VT_BUDGET_SCALE < 1: smoke run of a tier (same harness instances, shorter time boxes)
+                time_budget=float(os.environ.get("VT_BUDGET_SCALE", "1")) * (o.get("time_budget_thorough", o.get("time_budget", 900)) if deep else o.get("time_budget", 420)),
                 witness_per_harness=o.get("witnesses", 2),
                 obl_timeout=o.get("obl_timeout", 60000),
                 allowed_exc=tuple(o.get("allowed_exc", ())),
